@@ -14,6 +14,8 @@
 """Python BTree implementation
 """
 
+from functools import cmp_to_key
+
 from persistent import Persistent
 
 from ._compat import compare
@@ -255,7 +257,10 @@ class _SetIteration:
             if not isinstance(to_iterate, _Base):
                 # We know _Base (Set, Bucket, Tree, TreeSet) will all iterate
                 # in sorted order. Other than that, we have no guarantee.
-                self.to_iterate = to_iterate = sorted(self.to_iterate)
+                # Sort the way the containers order their keys (``None``
+                # is the smallest object key), not with the bare ``<``.
+                self.to_iterate = to_iterate = sorted(
+                    self.to_iterate, key=cmp_to_key(compare))
 
         if useValues:
             try:
